@@ -157,12 +157,12 @@ Encodable(t, v) == t.kind = "optional" => v # <<>>
 (* Operational reading *)
 POk(v, p, w) == [r |-> "ok", v |-> v, p |-> p, w |-> w]
 PErr(e)      == [r |-> "err", e |-> e]
-PUnspec      == [r |-> "unspec"]      \* integer with non-zero padding: doc/int.md leaves the value open
-
+\* An integer with non-zero padding bits is read the way libtw2's packer reads it (VarInt!DecodeAt:
+\* vimpl, warning NonZeroIntPadding); vimpl is doc/int.md's value unless the lowest padding bit is set.
 ReadInt(b, p) == LET d == DecodeAt(b, p) IN
                  IF d.r = "end" THEN PErr("end")
-                 ELSE IF d.pad THEN PUnspec
-                 ELSE POk(d.v, p + d.n, IF d.over THEN {"OverlongIntEncoding"} ELSE {})
+                 ELSE POk(d.vimpl, p + d.n, (IF d.over THEN {"OverlongIntEncoding"} ELSE {})
+                                            \cup (IF d.pad THEN {"NonZeroIntPadding"} ELSE {}))
 ReadRaw(b, p, n) == IF n > Len(b) - p + 1 THEN PErr("end") ELSE POk(SubSeq(b, p, p + n - 1), p + n, {})
 ReadString(b, p) == IF p > Len(b) THEN PErr("end") ELSE
                     LET k == SelectInSeq(SubSeq(b, p, Len(b)), LAMBDA x : x = 0) IN     \* first NUL at b[p + k - 1]
@@ -173,13 +173,20 @@ ReadData(b, p) == LET l == ReadInt(b, p) IN
                   ELSE POk(SubSeq(b, l.p, l.p + l.v - 1), l.p + l.v, l.w)
 ReadRest(b, p) == POk(SubSeq(b, p, Len(b)), Len(b) + 1, {})
 
-RECURSIVE ParseB(_, _, _)
-ParseSeqB(ts, b, p0) ==
+(* `finish` of the byte unpacker (packer/src/lib.rs): whatever is left is excess data - except
+   behind Unpacker::new_from_demo (dm = TRUE; messages stored in demo files are zero-padded to a
+   multiple of four bytes), where up to three zero bytes are padding: "rest.len() >= 4 ||
+   rest.iter().any(|&b| b != 0)" warns. *)
+ExcessB(b, p, dm) == LET n == Len(b) - p + 1 IN
+                     IF dm THEN n >= 4 \/ \E i \in p..Len(b) : b[i] # 0 ELSE n > 0
+
+RECURSIVE ParseB(_, _, _, _)
+ParseSeqB(ts, b, p0, dm) ==
   FoldLeft(LAMBDA a, t : IF a.r # "ok" THEN a ELSE
-                         LET x == ParseB(t, b, a.p) IN
+                         LET x == ParseB(t, b, a.p, dm) IN
                          IF x.r # "ok" THEN x ELSE POk(Append(a.v, x.v), x.p, a.w \cup x.w),
            POk(<<>>, p0, {}), ts)
-ParseB(t, b, p) ==
+ParseB(t, b, p, dm) ==
   CASE t.kind \in IntKinds ->
          LET i == ReadInt(b, p) IN IF i.r # "ok" THEN i ELSE IF ValidInt(t, i.v) THEN i ELSE PErr("range")
     [] t.kind = "string" ->
@@ -196,14 +203,14 @@ ParseB(t, b, p) ==
     [] t.kind = "be_uint16" -> LET x == ReadRaw(b, p, 2) IN IF x.r # "ok" THEN x ELSE [x EXCEPT !.v = x.v[1] * 256 + x.v[2]]
     [] t.kind = "uint8" -> LET x == ReadRaw(b, p, 1) IN IF x.r # "ok" THEN x ELSE [x EXCEPT !.v = x.v[1]]
     [] t.kind = "optional" ->       \* `.ok()`: a failing inner read exhausts the input and yields None
-         LET i == ParseB(t.inner, b, p) IN
+         LET i == ParseB(t.inner, b, p, dm) IN
          IF i.r = "ok" THEN [i EXCEPT !.v = <<i.v>>]
          ELSE IF i.r = "err" THEN POk(<<>>, Len(b) + 1, {}) ELSE i
-    [] t.kind = "array" -> ParseSeqB(Rep(t.count, t.member_type), b, p)
+    [] t.kind = "array" -> ParseSeqB(Rep(t.count, t.member_type), b, p, dm)
     [] t.kind = "snapshot_object" ->  \* decode_msg ends with `_p.finish(..)`: the rest of the input is excess data
-         LET x == ParseSeqB(MemberTypes(ObjOf(t.name)), b, p) IN
+         LET x == ParseSeqB(MemberTypes(ObjOf(t.name)), b, p, dm) IN
          IF x.r # "ok" THEN x
-         ELSE [x EXCEPT !.p = Len(b) + 1, !.w = @ \cup (IF x.p <= Len(b) THEN {"ExcessData"} ELSE {})]
+         ELSE [x EXCEPT !.p = Len(b) + 1, !.w = @ \cup (IF ExcessB(b, x.p, dm) THEN {"ExcessData"} ELSE {})]
 
 RECURSIVE ParseW(_, _, _)
 ParseSeqW(ts, ws, p0) ==
@@ -255,6 +262,8 @@ LookupConnless(id8) ==
 (* Whole messages / objects *)
 Finish(x, n) == IF x.r # "ok" THEN x
                 ELSE [x EXCEPT !.p = n + 1, !.w = @ \cup (IF x.p <= n THEN {"ExcessData"} ELSE {})]
+FinishB(x, b, dm) == IF x.r # "ok" THEN x
+                     ELSE [x EXCEPT !.p = Len(b) + 1, !.w = @ \cup (IF ExcessB(b, x.p, dm) THEN {"ExcessData"} ELSE {})]
 
 ReEncBody(sec, m, vals) ==
   LET ts == SecTypes(sec, m) IN
@@ -272,11 +281,11 @@ EncodableVals(sec, m, vals) ==
 
 \* Result of reading `b` as message `mi` of `sec` from position p (after the identifier).
 \* [r |-> "ok", sec, mi, v, w, enc (TRUE iff encode is defined), re (the re-encoding incl. identifier)]
-ParseBody(sec, mi, b, p, w0) ==
+ParseBody(sec, mi, b, p, w0, dm) ==
   LET m == SecMsgs(sec)[mi]
       x == IF ~Covered(sec, m) THEN [r |-> "uncovered"]
            ELSE IF sec = "obj" THEN Finish(ParseSeqW(ObjTypes(m), b, p), Len(b))
-           ELSE Finish(ParseSeqB(MemberTypes(m), b, p), Len(b))
+           ELSE FinishB(ParseSeqB(MemberTypes(m), b, p, dm), b, dm)
   IN IF x.r # "ok" THEN x
      ELSE [r |-> "ok", sec |-> sec, mi |-> mi, v |-> x.v, w |-> w0 \cup x.w,
            enc |-> EncodableVals(sec, m, x.v),
@@ -284,7 +293,7 @@ ParseBody(sec, mi, b, p, w0) ==
 
 \* generic entry points for system and game messages: `msg::decode` (want = "any") and the
 \* inherent `System::decode` / `Game::decode` (decode_id, then UnknownId for the other kind)
-ParseMsgAs(want, b) ==
+ParseMsgAs(want, b, dm) ==
   LET i == ReadInt(b, 1) IN
   IF i.r # "ok" THEN i ELSE
   LET sec == IF i.v % 2 = 1 THEN "system" ELSE "game"
@@ -293,29 +302,39 @@ ParseMsgAs(want, b) ==
   IN IF u.r # "ok" THEN u ELSE
      IF want # "any" /\ want # sec THEN PErr("unknown_id") ELSE
      LET mi == Lookup(sec, ord, u.v) IN
-     IF mi = 0 THEN PErr("unknown_id") ELSE ParseBody(sec, mi, b, u.p, i.w)
-ParseMsg(b) == ParseMsgAs("any", b)
-ParseConnless(b) ==
+     IF mi = 0 THEN PErr("unknown_id") ELSE ParseBody(sec, mi, b, u.p, i.w, dm)
+ParseMsg(b) == ParseMsgAs("any", b, FALSE)
+ParseConnless(b, dm) ==
   LET h == ReadRaw(b, 1, 8) IN
   IF h.r # "ok" THEN h ELSE
   LET mi == LookupConnless(h.v) IN
-  IF mi = 0 THEN PErr("unknown_id") ELSE ParseBody("connless", mi, b, 9, {})
+  IF mi = 0 THEN PErr("unknown_id") ELSE ParseBody("connless", mi, b, 9, {}, dm)
 ParseObj(ord, uuid, ws) ==
   LET mi == Lookup("obj", ord, uuid) IN
-  IF mi = 0 THEN PErr("unknown_id") ELSE ParseBody("obj", mi, ws, 1, {})
+  IF mi = 0 THEN PErr("unknown_id") ELSE ParseBody("obj", mi, ws, 1, {}, FALSE)
 \* obj_size(type id): described size of objects with an ordinal identifier, -1 = None
 ObjSizeOf(ord) == LET mi == Lookup("obj", ord, <<>>) IN
                   IF ord = 0 \/ mi = 0 \/ ~Covered("obj", Desc.snapshot_objects[mi]) THEN -1
                   ELSE ObjSize(Desc.snapshot_objects[mi])
 
+\* The entry points behind Unpacker::new_from_demo (names with a leading "d"): the constructor asserts
+\* that the length is a multiple of four ("demo data must be padded to a multiple of four bytes").
+DemoEntries == {"dmsg", "dsystem", "dgame", "dtsystem", "dtgame", "dconnless"}
+PPrecond == [r |-> "precond"]
 ParseAny(sec, ord, uuid, b) == CASE sec = "msg" -> ParseMsg(b)
-                                 [] sec \in {"system", "game"} -> ParseMsgAs(sec, b)
+                                 [] sec \in {"system", "game"} -> ParseMsgAs(sec, b, FALSE)
                                  \* the same through libtw2_gamenet_common::traits (MessageExt, SnapObj)
-                                 [] sec = "tsystem" -> ParseMsgAs("system", b)
-                                 [] sec = "tgame" -> ParseMsgAs("game", b)
+                                 [] sec = "tsystem" -> ParseMsgAs("system", b, FALSE)
+                                 [] sec = "tgame" -> ParseMsgAs("game", b, FALSE)
                                  [] sec = "tobj" -> ParseObj(ord, uuid, b)
-                                 [] sec = "connless" -> ParseConnless(b)
+                                 [] sec = "connless" -> ParseConnless(b, FALSE)
                                  [] sec = "obj" -> ParseObj(ord, uuid, b)
+                                 [] sec \in DemoEntries ->
+                                      IF Len(b) % 4 # 0 THEN PPrecond
+                                      ELSE CASE sec = "dmsg" -> ParseMsgAs("any", b, TRUE)
+                                             [] sec \in {"dsystem", "dtsystem"} -> ParseMsgAs("system", b, TRUE)
+                                             [] sec \in {"dgame", "dtgame"} -> ParseMsgAs("game", b, TRUE)
+                                             [] sec = "dconnless" -> ParseConnless(b, TRUE)
 
 -----------------------------------------------------------------------------
 (* Canonical values and the boundary sweep *)
@@ -371,17 +390,42 @@ Tagged(tag, v) == [tag |-> tag, v |-> v]
 Str(n, c) == Rep(n, c)
 LongLen == IF Full THEN 3000 ELSE 300
 
+(* The key points of a sweep S of a member of type t: first and last point that satisfy the declared
+   constraint, and the violating points next to them (the last one below, the first one above; any
+   violating point when there is none on that side). Integer sweeps are sorted by value, so for a
+   range these are min, max, min-1, max+1. Used where the full sweep would be too large: the inner
+   indices of arrays (quick tier) and the pairs of members. *)
+SetMin(S) == CHOOSE x \in S : \A y \in S : x <= y
+SetMax(S) == CHOOSE x \in S : \A y \in S : y <= x
+KeyIdx(t, S) ==
+  LET V == {k \in DOMAIN S : ValidB(t, S[k].v)}
+      X == DOMAIN S \ V
+      below == IF V = {} THEN {} ELSE {k \in X : k < SetMin(V)}
+      above == IF V = {} THEN X ELSE {k \in X : k > SetMax(V)}
+      near  == (IF below = {} THEN {} ELSE {SetMax(below)}) \cup (IF above = {} THEN {} ELSE {SetMin(above)})
+  IN SetToSortSeq((IF V = {} THEN {} ELSE {SetMin(V), SetMax(V)})
+                  \cup (IF near = {} /\ X # {} THEN {SetMin(X)} ELSE near), <)
+
 RECURSIVE Sweep(_, _)
 Sweep(t, s) ==
   CASE t.kind \in IntKinds -> LET ps == IntPoints(t) IN [i \in DOMAIN ps |-> Tagged("int " \o ToString(ps[i]), ps[i])]
     [] t.kind = "string" ->
          << Tagged("empty", <<>>), Tagged("one", <<97>>), Tagged("long", Str(LongLen, 120)),
             Tagged("space del high", <<32, 126, 127, 128, 255>>), Tagged("utf8", <<195, 164, 226, 130, 172>>),
+            \* spaces are ordinary bytes wherever they stand (a strict string only forbids bytes < 0x20)
+            Tagged("leading spaces", <<32, 32, 104, 105>>), Tagged("trailing spaces", <<104, 105, 32, 32>>),
+            Tagged("inner spaces", <<104, 32, 32, 105>>), Tagged("only spaces", <<32, 32, 32>>),
+            Tagged("one space", <<32>>), Tagged("63", Str(63, 65)), Tagged("64", Str(64, 66)),
+            Tagged("1024", Str(1024, 121)),
             Tagged("cc 1f", <<97, 31, 98>>), Tagged("cc 01", <<1>>), Tagged("cc tab", <<97, 9>>),
             Tagged("cc lf", <<10, 97>>), Tagged("cc cr", <<13>>) >>
     [] t.kind = "data" ->
-         << Tagged("empty", <<>>), Tagged("one zero", <<0>>), Tagged("63", Str(63, 255)),
-            Tagged("64", Str(64, 0)), Tagged("long", [i \in 1..LongLen |-> i % 256]) >>
+         \* lengths around the sizes of the length prefix (63/64, 8191/8192), powers of two and the
+         \* round sizes protocol implementations use for parts and packets (900, 1024, 1400)
+         LET lens == <<63, 64, 255, 256, 899, 900, 901, 1023, 1024, 1025, 1400>>
+                     \o (IF Full THEN <<300, 2047, 2048, 3000, 8191, 8192>> ELSE <<>>) IN
+         << Tagged("empty", <<>>), Tagged("one zero", <<0>>) >>
+         \o [k \in DOMAIN lens |-> Tagged(ToString(lens[k]), [i \in 1..lens[k] |-> (i + lens[k]) % 256])]
     [] t.kind = "rest" -> << Tagged("empty", <<>>), Tagged("zero", <<0>>), Tagged("some", <<1, 2, 3, 0, 255>>) >>
     [] t.kind = "serverinfo_client" -> << Tagged("empty", <<>>), Tagged("odd", <<110, 0, 99>>) >>
     [] t.kind = "packed_addresses" ->
@@ -406,7 +450,11 @@ Sweep(t, s) ==
          LET c == Canon(t, s)
              at(j) == LET in == Sweep(t.member_type, s + j - 1) IN
                       [i \in DOMAIN in |-> Tagged("[" \o ToString(j) \o "] " \o in[i].tag, [c EXCEPT ![j] = in[i].v])]
-         IN IF t.count = 0 THEN <<>> ELSE IF t.count = 1 THEN at(1) ELSE at(1) \o at(t.count)
+             \* an inner index: the key points only (every point in the thorough tier)
+             key(j) == LET in == Sweep(t.member_type, s + j - 1)
+                           ks == KeyIdx(t.member_type, in) IN
+                       [n \in DOMAIN ks |-> Tagged("[" \o ToString(j) \o "] " \o in[ks[n]].tag, [c EXCEPT ![j] = in[ks[n]].v])]
+         IN Flat([j \in 1..t.count |-> IF j \in {1, t.count} \/ Full THEN at(j) ELSE key(j)])
     [] t.kind = "snapshot_object" ->
          LET ts == MemberTypes(ObjOf(t.name))
              c == Canon(t, s)
@@ -473,6 +521,181 @@ VecInput(id) ==
        IN [ord |-> IF sec = "connless" THEN 0 ELSE IdOrd(m), uuid |-> IF sec = "connless" THEN <<>> ELSE IdUuid(m),
            data |-> Header(sec, m) \o body \o (IF id[3] = 0 /\ id[4] = 2 THEN <<5>> ELSE <<>>)]
 EntryOf(sec) == IF sec \in {"system", "game"} THEN "msg" ELSE sec
+-----------------------------------------------------------------------------
+(* Families of vectors beyond the single-member sweep ("main": <<sec, mi, slot, k>> above). The first
+   element of an identifier names the family:
+
+     <<"pair", sec, mi, i, ki, j, kj>>   members i < j (adjacent, or first and last) both at a key point
+                                         of their sweep (KeyIdx: both boundaries, both nearest violations)
+     <<"ienc", sec, mi, i, var>>         the canonical tuple with the integer of member i (0 = the message
+                                         identifier) in a non-canonical encoding: 1 overlong, 2..4 non-zero
+                                         padding bits that do not reach the value (2, 8, 14), 5 padding bit
+                                         that libtw2 moves to bit 31
+     <<"demo", sec, mi, var>>            the canonical bytes as stored in a demo file, read behind
+                                         Unpacker::new_from_demo: 1 zero-padded to a multiple of four,
+                                         2 one more zero word, 3..5 a non-zero byte at padding position
+                                         var - 2, 6 not a multiple of four (precondition of the constructor)
+     <<"build", sec, mi, i, k>>          a value tuple that no decoder produces, built through the public
+                                         struct fields and given to `encode` (k-th BuildExtra point of member i) *)
+MsgSections == {"system", "game", "connless"}
+Fam(id) == IF id[1] \in Range(Sections) THEN "main" ELSE id[1]
+CoveredMsgs(secs) == UNION {{<<sec, mi>> : mi \in {j \in DOMAIN SecMsgs(sec) : Covered(sec, SecMsgs(sec)[j])}} : sec \in secs}
+
+PairsOf(n) == IF n < 2 THEN {} ELSE {<<i, i + 1>> : i \in 1..(n - 1)} \cup (IF n > 2 THEN {<<1, n>>} ELSE {})
+\* quick tier: without the lower boundary (the upper boundary and both violations remain)
+PairPts(sec, m, i) == LET ts == SecTypes(sec, m)
+                          S  == Sweep(ts[i], i)
+                          ks == KeyIdx(ts[i], S)
+                          V  == {k \in Range(ks) : ValidB(ts[i], S[k].v)}
+                      IN IF Full \/ Cardinality(V) < 2 THEN Range(ks) ELSE Range(ks) \ {SetMin(V)}
+PairIds == UNION { LET sec == sm[1] mi == sm[2] m == SecMsgs(sec)[mi] IN
+                   UNION { {<<"pair", sec, mi, pr[1], ki, pr[2], kj>> :
+                               ki \in PairPts(sec, m, pr[1]), kj \in PairPts(sec, m, pr[2])}
+                           : pr \in PairsOf(Len(SecTypes(sec, m))) }
+                   : sm \in CoveredMsgs(Range(Sections)) }
+
+IntMembers(m) == {i \in DOMAIN m.members : m.members[i].type.kind \in IntKinds}
+IencMembers(sec, m) == LET S == IntMembers(m) IN
+                       (IF Full \/ S = {} THEN S ELSE {SetMin(S), SetMax(S)})
+                       \cup (IF sec = "connless" THEN {} ELSE {0})
+IencIds == UNION { {<<"ienc", sm[1], sm[2], i, var>> : i \in IencMembers(sm[1], SecMsgs(sm[1])[sm[2]]), var \in 1..5}
+                   : sm \in CoveredMsgs(MsgSections) }
+AltInt(x, var) == CASE var = 1 -> Overlong(x)
+                    [] var = 2 -> FiveBytes(x, 2)
+                    [] var = 3 -> FiveBytes(x, 8)
+                    [] var = 4 -> FiveBytes(x, 14)
+                    [] var = 5 -> FiveBytes(x, 1)
+IencTag(var) == CASE var = 1 -> "overlong" [] var = 2 -> "padding 2" [] var = 3 -> "padding 8"
+                  [] var = 4 -> "padding 14" [] var = 5 -> "padding 1"
+
+CanonData(sec, m) == Header(sec, m) \o EncBody(sec, m, CanonVals(sec, m))
+DemoPad(d) == (4 - (Len(d) % 4)) % 4
+DemoIds == UNION { LET p == DemoPad(CanonData(sm[1], SecMsgs(sm[1])[sm[2]])) IN
+                   {<<"demo", sm[1], sm[2], var>> : var \in {1, 2, 6} \cup {2 + q : q \in 1..p}}
+                   : sm \in CoveredMsgs(MsgSections) }
+DemoTag(var) == CASE var = 1 -> "zero padded" [] var = 2 -> "one more zero word" [] var = 6 -> "not a multiple of four"
+                  [] OTHER -> "non-zero padding byte " \o ToString(var - 2)
+
+RECURSIVE BuildExtra(_)
+BuildExtra(t) ==
+  CASE t.kind = "string" -> << Tagged("nul inside", <<97, 0, 98>>), Tagged("only nul", <<0>>) >>
+    [] t.kind = "optional" ->
+         LET in == BuildExtra(t.inner) IN
+         <<Tagged("none", <<>>)>> \o [i \in DOMAIN in |-> Tagged("some " \o in[i].tag, <<in[i].v>>)]
+    [] t.kind = "array" ->
+         LET in == BuildExtra(t.member_type)
+             c == Canon(t, 1)
+             at(j) == [i \in DOMAIN in |-> Tagged("[" \o ToString(j) \o "] " \o in[i].tag, [c EXCEPT ![j] = in[i].v])]
+         IN IF t.count = 0 THEN <<>> ELSE IF t.count = 1 THEN at(1) ELSE at(1) \o at(t.count)
+    [] OTHER -> <<>>
+BuildIds == UNION { LET sec == sm[1] mi == sm[2] ts == SecTypes(sec, SecMsgs(sec)[mi]) IN
+                    UNION { {<<"build", sec, mi, i, k>> : k \in DOMAIN BuildExtra(ts[i])} : i \in DOMAIN ts }
+                    : sm \in CoveredMsgs(MsgSections) }
+
+\* which families a run enumerates (environment GAMENET_FAMS, default all)
+Fams == IF "GAMENET_FAMS" \in DOMAIN IOEnv THEN IOEnv.GAMENET_FAMS ELSE "main,pair,ienc,demo,build"
+HasFam(f) == \E k \in 1..(Len(Fams) - Len(f) + 1) : SubSeq(Fams, k, k + Len(f) - 1) = f
+AllIds == (IF HasFam("main") THEN VecIds ELSE {}) \cup (IF HasFam("pair") THEN PairIds ELSE {})
+          \cup (IF HasFam("ienc") THEN IencIds ELSE {}) \cup (IF HasFam("demo") THEN DemoIds ELSE {})
+          \cup (IF HasFam("build") THEN BuildIds ELSE {})
+
+\* section, message and value tuple of an identifier of any family
+FSec(id) == IF Fam(id) = "main" THEN id[1] ELSE id[2]
+FMi(id)  == IF Fam(id) = "main" THEN id[2] ELSE id[3]
+FVals(id) ==
+  LET f == Fam(id) IN
+  IF f = "main" THEN VecVals(id) ELSE
+  LET sec == id[2] m == SecMsgs(sec)[id[3]] ts == SecTypes(sec, m) c == CanonVals(sec, m) IN
+  CASE f = "pair"  -> [c EXCEPT ![id[4]] = Sweep(ts[id[4]], id[4])[id[5]].v, ![id[6]] = Sweep(ts[id[6]], id[6])[id[7]].v]
+    [] f = "build" -> [c EXCEPT ![id[4]] = BuildExtra(ts[id[4]])[id[5]].v]
+    [] OTHER -> c
+FTag(id) ==
+  LET f == Fam(id) IN
+  IF f = "main" THEN VecTag(id) ELSE
+  LET sec == id[2] m == SecMsgs(sec)[id[3]] ts == SecTypes(sec, m) IN
+  CASE f = "pair"  -> "pair " \o ToString(id[4]) \o ": " \o Sweep(ts[id[4]], id[4])[id[5]].tag
+                      \o " & " \o ToString(id[6]) \o ": " \o Sweep(ts[id[6]], id[6])[id[7]].tag
+    [] f = "ienc"  -> "integer of member " \o ToString(id[4]) \o " " \o IencTag(id[5])
+    [] f = "demo"  -> "demo " \o DemoTag(id[4])
+    [] f = "build" -> "build " \o ToString(id[4]) \o ": " \o BuildExtra(ts[id[4]])[id[5]].tag
+FEntry(id) == IF Fam(id) = "demo" THEN "d" \o EntryOf(id[2]) ELSE EntryOf(FSec(id))
+\* the input of a vector of any family (the build family has none: its values go to `encode`)
+FInput(id) ==
+  LET f == Fam(id) IN
+  IF f = "main" THEN VecInput(id) ELSE
+  LET sec == id[2] m == SecMsgs(sec)[id[3]] ts == SecTypes(sec, m) c == CanonVals(sec, m)
+      idn == [ord |-> IF sec = "connless" THEN 0 ELSE IdOrd(m), uuid |-> IF sec = "connless" THEN <<>> ELSE IdUuid(m)]
+      data ==
+        CASE f \in {"pair", "build"} -> Header(sec, m) \o EncBody(sec, m, FVals(id))
+          [] f = "ienc" ->
+               LET i == id[4] var == id[5] fl == IF sec = "system" THEN 1 ELSE 0 IN
+               (IF i # 0 THEN Header(sec, m)
+                ELSE IF IsUuidId(m) THEN AltInt(fl, var) \o UuidBytes(m.id) ELSE AltInt(m.id * 2 + fl, var))
+               \o Flat([j \in DOMAIN ts |-> IF j = i THEN AltInt(c[j], var) ELSE EncB(ts[j], c[j])])
+          [] f = "demo" ->
+               LET d == CanonData(sec, m) p == DemoPad(d) var == id[4] IN
+               d \o (CASE var = 1 -> Rep(p, 0) [] var = 2 -> Rep(p + 4, 0) [] var = 6 -> Rep(p + 1, 0)
+                       [] OTHER -> [q \in 1..p |-> IF q = var - 2 THEN 1 ELSE 0])
+  IN [ord |-> idn.ord, uuid |-> idn.uuid, data |-> data]
+
+-----------------------------------------------------------------------------
+(* `encode` of a value built through the public struct fields (datatypes.py emit_assert / assert_expr,
+   packer write_string). o = TRUE inside a snapshot object, whose fields are all i32 (int_sized).
+   RepV:    the Rust type of the field can hold the value (an enum field only holds described values,
+            a `bool` only 0/1, the i32 of an int32_string only what a decimal string denotes);
+   AssertV: the assertions of `encode` hold: declared ranges (assert!(min <= x && x <= max), x >= min),
+            sanitize(&mut Panic, s).unwrap() for strings that disallow control characters,
+            assert!(opt.is_some()), and write_string's assert that a string has no NUL. *)
+RECURSIVE RepV(_, _, _)
+RepV(o, t, v) ==
+  CASE t.kind = "enum" -> v \in EnumVals(t.enum)
+    [] t.kind = "boolean" -> o \/ v \in {0, 1}
+    [] t.kind = "int32_string" -> I32Str(v).ok
+    [] t.kind = "be_uint16" -> v \in 0..65535
+    [] t.kind = "uint8" -> v \in 0..255
+    [] t.kind = "optional" -> v = <<>> \/ RepV(o, t.inner, v[1])
+    [] t.kind = "array" -> \A i \in 1..t.count : RepV(o, t.member_type, v[i])
+    [] t.kind = "snapshot_object" -> LET ts == MemberTypes(ObjOf(t.name)) IN \A i \in DOMAIN ts : RepV(TRUE, ts[i], v[i])
+    [] OTHER -> TRUE
+RECURSIVE AssertV(_, _, _)
+AssertV(o, t, v) ==
+  CASE t.kind = "int32" -> ValidInt(t, v)
+    [] t.kind = "boolean" -> o => v \in {0, 1}
+    [] t.kind = "string" -> (\A i \in DOMAIN v : v[i] # 0) /\ (t.disallow_cc => \A i \in DOMAIN v : v[i] >= 32)
+    [] t.kind = "optional" -> v # <<>> /\ AssertV(o, t.inner, v[1])
+    [] t.kind = "array" -> \A i \in 1..t.count : AssertV(o, t.member_type, v[i])
+    [] t.kind = "snapshot_object" -> LET ts == MemberTypes(ObjOf(t.name)) IN \A i \in DOMAIN ts : AssertV(TRUE, ts[i], v[i])
+    [] OTHER -> TRUE
+RECURSIVE NulFree(_, _)
+NulFree(t, v) ==
+  CASE t.kind = "string" -> \A i \in DOMAIN v : v[i] # 0
+    [] t.kind = "optional" -> v = <<>> \/ NulFree(t.inner, v[1])
+    [] t.kind = "array" -> \A i \in 1..t.count : NulFree(t.member_type, v[i])
+    [] OTHER -> TRUE
+\* [rep, ok, bytes]: representable; encode returns (else: panics); what it writes (identifier included)
+BuildExp(sec, m, vals) ==
+  LET ts == SecTypes(sec, m) o == sec = "obj"
+      rp == \A i \in DOMAIN ts : RepV(o, ts[i], vals[i])
+      ok == rp /\ \A i \in DOMAIN ts : AssertV(o, ts[i], vals[i])
+  IN [rep |-> rp, ok |-> ok, bytes |-> IF ok THEN Header(sec, m) \o ReEncBody(sec, m, vals) ELSE <<>>]
+NormVals(sec, m, vals) == LET ts == SecTypes(sec, m) IN
+                          [i \in DOMAIN ts |-> IF sec = "obj" THEN vals[i] ELSE Norm(ts[i], vals[i])]
+
+(* First-error order: the class of the first violated constraint of a value tuple, in member order
+   (declarative counterpart of the operational ParseSeqB, ParseSeqW). "" = none. *)
+FirstNonEmpty(ss) == FoldLeft(LAMBDA a, x : IF a # "" THEN a ELSE x, "", ss)
+RECURSIVE ErrOf(_, _)
+ErrOf(t, v) ==
+  CASE t.kind \in IntKinds -> IF ValidInt(t, v) THEN "" ELSE "range"
+    [] t.kind = "string" -> IF t.disallow_cc /\ \E i \in DOMAIN v : v[i] < 32 THEN "cc" ELSE ""
+    [] t.kind = "int32_string" -> IF I32Str(v).ok THEN "" ELSE "intstr"
+    [] t.kind = "optional" -> IF v = <<>> THEN "" ELSE ErrOf(t.inner, v[1])
+    [] t.kind = "array" -> FirstNonEmpty([i \in 1..t.count |-> ErrOf(t.member_type, v[i])])
+    [] t.kind = "snapshot_object" ->
+         LET ts == MemberTypes(ObjOf(t.name)) IN FirstNonEmpty([i \in DOMAIN ts |-> ErrOf(ts[i], v[i])])
+    [] OTHER -> ""
+FirstErr(sec, m, vals) == LET ts == SecTypes(sec, m) IN FirstNonEmpty([i \in DOMAIN ts |-> ErrOf(ts[i], vals[i])])
+
 -----------------------------------------------------------------------------
 (* Name of the generated Rust type: datatypes.py `title(name)` = "".join(p.title()). *)
 LowerCase == <<"a","b","c","d","e","f","g","h","i","j","k","l","m","n","o","p","q","r","s","t","u","v","w","x","y","z">>
